@@ -237,8 +237,9 @@ def run(item, ctx, tier, seed):
             if variant == 0 and ai % 2 == 0:
                 u_data = [(float(int(s_ * 2)), p_, l_) for s_, p_, l_ in data]
                 ok, gu = guarded(ctx, "construct-uint8", case, lambda: GroupScores(
-                    pos=np.array([int(s_ * 2) for s_, _ in pos_in], dtype=np.uint8), neg=np.array([int(s_ * 2) for s_, _ in neg_in], dtype=np.uint8),
-                    pos_groups=[l for _, l in pos_in], neg_groups=[l for _, l in neg_in], score_class=sc, equal_class=ec))
+                    pos=np.array([int(s_ * 2) for s_, _ in pos_in][::-1], dtype=np.uint8),
+                    neg=np.array([int(s_ * 2) for s_, _ in neg_in][::-1], dtype=np.uint8),
+                    pos_groups=[l for _, l in pos_in][::-1], neg_groups=[l for _, l in neg_in][::-1], score_class=sc, equal_class=ec))
                 ctx.tick()
                 if ok:
                     check_object(ctx, dict(case, dtype="uint8"), gu, u_data, cfg, glist,
